@@ -227,8 +227,19 @@ func (o *Outcome) Emit(noEvidence bool) int {
 	for _, s := range o.Stale {
 		fmt.Println("   STALE:", s)
 	}
+	printed := map[string]bool{}
 	for _, k := range o.KnownHits {
-		fmt.Printf("KNOWN-FINDING: property=%s %s at %s: %s\n", o.Property, k.Key, k.Pos, k.Detail)
+		if printed[k.Key] {
+			continue
+		}
+		printed[k.Key] = true
+		var cfgs []string
+		for _, k2 := range o.KnownHits {
+			if k2.Key == k.Key {
+				cfgs = append(cfgs, k2.Config)
+			}
+		}
+		fmt.Printf("KNOWN-FINDING: property=%s %s at %s [%s]: %s\n", o.Property, k.Key, k.Pos, strings.Join(cfgs, ","), k.Detail)
 	}
 	code := 0
 	if o.Failed() {
@@ -320,6 +331,15 @@ func (o *Outcome) writeEvidence(dir string, byRule map[string][2]int) {
 	cov["exceptions_applied"] = exc
 	for k, v := range o.Extra {
 		cov[k] = v
+	}
+	if o.Assumptions == nil {
+		o.Assumptions = []string{}
+	}
+	if o.TrustedBase == nil {
+		cov["trusted_base"] = []string{}
+	}
+	if o.Set.Problems == nil {
+		cov["undecided"] = []string{}
 	}
 	ev := map[string]interface{}{
 		"property_id": o.Property,
